@@ -97,3 +97,19 @@ theorem wrapTags_single (indefOk dm isCons : Bool) (t : Tag) (sub : Bytes) :
     (cases h : Asn1.encodeLength sub.length <;> simp [Asn1.wrapTags])
 
 end Asn1.Kernels
+
+namespace Asn1.Kernels
+open Py
+
+/-- the translated header loop around primitive contents under one universal tag, definite mode -/
+theorem wrap_prim_kernel (indefOk : Bool) (num : Nat) (c l : Bytes) (hne : c ≠ []) (hl : Asn1.encodeLength c.length = some l) :
+    GenK.wrapTags indefOk false [[0, 0, (num : Int)]] true (bytesInts c) false false =
+      .ok (bytesInts (Asn1.encodeTag ⟨.universal, false, num⟩ false ++ l ++ c)) := by
+  have ht : ([0, 0, (num : Int)] : Py.Tup) = tagTriple ⟨.universal, false, num⟩ := rfl
+  have he : c.isEmpty = false := by cases c <;> simp_all
+  have h := wrapTags_kernel indefOk false true false false ⟨.universal, false, num⟩ [] c
+  simp only [List.map_cons, List.map_nil] at h
+  rw [ht, h, wrapTags_single]
+  simp only [he, Bool.false_and, Bool.and_false, Bool.false_eq_true, if_false, hl, List.append_nil, liftLen]
+
+end Asn1.Kernels
